@@ -346,6 +346,16 @@ impl World {
                     Out::OtherErr(format!("{e:?}"))
                 }
             },
+            Op::WMeta { n, k: 3 } => {
+                // a value TOML cannot represent (integer above i64::MAX): the write must fail and leave the file alone
+                #[derive(serde::Serialize)]
+                struct Unrepresentable {
+                    version: String,
+                    content_hash: u64,
+                }
+                let v = Unrepresentable { version: "1".into(), content_hash: u64::MAX };
+                conv_unit(with_ref!(self.refs.get(n).expect("live ref"), r => r.write_metadata(v)))
+            }
             Op::WMeta { n, k } => {
                 let v = meta_value(*k);
                 conv_unit(with_ref!(self.refs.get(n).expect("live ref"), r => r.write_metadata(v)))
@@ -605,7 +615,7 @@ pub fn enabled_ops(snap: &Snapshot, live: &BTreeSet<usize>, all_shapes: bool) ->
             out.push(Op::Uncached { n, build, launch });
         }
         if live.contains(&n) {
-            for k in 0..3 {
+            for k in 0..4 {
                 out.push(Op::WMeta { n, k });
             }
             for k in 0..4 {
@@ -716,6 +726,7 @@ pub fn step(snap: &Snapshot, live: &BTreeSet<usize>, rep: &Rep, op: &Op, verbose
             let mut want = pre.clone();
             let mut expect_err = false;
             match op {
+                Op::WMeta { k: 3, .. } => {}
                 Op::WMeta { k, .. } => {
                     if let Some(Ok(t)) = &mut want.toml {
                         t.metadata = Some(meta_value(*k));
@@ -732,7 +743,14 @@ pub fn step(snap: &Snapshot, live: &BTreeSet<usize>, rep: &Rep, op: &Op, verbose
                 }
                 _ => unreachable!(),
             }
-            if expect_err {
+            if matches!(op, Op::WMeta { k: 3, .. }) {
+                // unrepresentable metadata: an error, and the layer (types, earlier metadata, everything else) as before
+                if matches!(out, Out::Ok(_)) {
+                    bad = Some(("unrepresentable-metadata-accepted".into(), format!("{op:?} reported success for a value TOML cannot hold")));
+                } else if post != pre {
+                    bad = Some(("failed-metadata-write-damaged-layer".into(), format!("{op:?} failed ({out:?}) and left [{}], before the call the layer was [{}]", post.describe(), pre.describe())));
+                }
+            } else if expect_err {
                 if matches!(out, Out::Ok(_)) {
                     bad = Some(("missing-execd-source-accepted".into(), format!("{op:?} reported success although a source program does not exist")));
                 }
